@@ -187,8 +187,17 @@ PROPS["C11"] = {"theorems": ["C11_scalar", "C11_scalar_schema", "C11_scalar_vali
                              "predSchema_keys", "PredOK_minLength", "PredOK_maxLength", "PredOK_exactLength", "PredOK_min",
                              "PredOK_max", "PredOK_equalTo", "PredOK_choices", "parsePat_source", "patHolds_prefix",
                              "patHolds_suffix", "PredOK_startsWith", "PredOK_endsWith", "PredOK_regex_partial",
-                             "PredOK_notBlank_partial"],
-                "modules": ["KodaModel.Properties.C11", "KodaModel.Properties.C11Pat"],
+                             "PredOK_notBlank_partial", "C11_optional_schema", "C11_union_schema", "countP_one_of_atMostOne",
+                             "C11_list_schema", "C11_ntuple_schema", "PredOK_minItems", "PredOK_maxItems",
+                             "PredOK_uniqueItems_partial"],
+                "modules": ["KodaModel.Properties.C11", "KodaModel.Properties.C11Pat", "KodaModel.Properties.C11Containers"],
+                "level_note": "proved: scalar validators end to end (schema accepts iff validator accepts, any number of "
+                              "predicates, keyword clashes merged under allOf), the pattern reader inverts the pattern "
+                              "writer, per-keyword lemmas, and the schema side of optionals, unions (oneOf = exactly one; = "
+                              "'some' when variants do not overlap), lists / uniform tuples and n-tuples given what the "
+                              "children's schemas decide; `_partial` theorems carry the hypotheses that findings D13 / D14 / "
+                              "D15 violate, each with its witness; maps, records, named recursion and the validator side "
+                              "of the containers are decided by the correspondence and the jsonschema oracle only",
                 "run": _run_c11, "replay": _replay_c11,
                 "rule": "validator trees of the JSON-native fragment to depth 3 (scalars with every supported predicate, "
                         "lists / uniform / n-tuples, string-keyed maps, the five record kinds with optional keys and both "
